@@ -53,7 +53,7 @@ class Session:
 
     def twin_changed(self):
         """None if there is no twin or it still reads as built; else a list of differing keys"""
-        if self.twin is None:
+        if getattr(self, "twin", None) is None:
             return None
         from . import walker
         now = walker.walk(self.twin[1], core=True)
@@ -63,7 +63,7 @@ class Session:
 
     def close(self, remove=True):
         env.safe_close(self.f)
-        if self.twin is not None:
+        if getattr(self, "twin", None) is not None:
             env.safe_close(self.twin[1])
             env.rm(self.twin[0])
             self.twin = None
